@@ -154,7 +154,7 @@ def run(tier):
                 j.fail("%s|%s|order=%r|rejected-documented-order-%s" % (PID, name, o, raised), {"kind": "order", "call": c}, cid)
             else:
                 j.ok(cid)
-        elif op == "mat":
+        elif op in ("mat", "sym"):
             continue
         elif op == "scalars":
             name = c["name"]
